@@ -101,7 +101,7 @@ def run(ctx):
              dict(workers=2, timeout=1500, consts={"OPS": ctx.pick(4, 5), "WSIZES": "{0, 3, 2000}", "RSIZES": ctx.pick("{3, 2000}", "{0, 3, 2000}"),
                                                   "PRINTALL": "TRUE", "VIAS": all_vias})),
             ("tlc_gen", ("util", "PipeConnsGen", "PipeConnsGen.cfg"),
-             dict(workers=2, timeout=1500, consts={"OPS": ops_huge, "WSIZES": huge_w, "RSIZES": huge_r, "PRINTALL": "TRUE", "VIAS": two_vias}))]
+             dict(workers=2, timeout=1500, consts={"OPS": ops_huge, "WSIZES": huge_w, "RSIZES": huge_r, "PRINTALL": "TRUE", "VIAS": ctx.pick('{"Write"}', two_vias)}))]
     _, _, (_, beh), (_, beh3), (_, beh2) = tlc_parallel(ctx, jobs)
     beh2 = beh2 + beh3
     if not ctx.quick:
